@@ -6,7 +6,7 @@
 // anthropic_support — and what the compiled lookup functions the Anthropic handler uses
 // answer for every endpoint type a configuration may name:
 //   - Factory.GetAnthropicSupport(rawType)          (what tryPassthrough calls)
-//   - Factory.GetAnthropicSupport(NormalizeProviderName(rawType))   (the endpoint's own profile)
+//   - the anthropic_support of the loader's profile NormalizeProviderName(rawType)   (the endpoint's own profile)
 //   - Factory.ValidateProfileType(rawType)          (is the type accepted in a config at all)
 // plus the constants of the passthrough / translation split obtained by RUNNING the
 // translator (PreparePassthrough / TransformRequest target paths, X-Olla-Mode, mode names)
@@ -83,13 +83,18 @@ func main() {
 	var trows []string
 	for _, t := range types {
 		raw := fac.GetAnthropicSupport(t)
-		res := fac.GetAnthropicSupport(fac.NormalizeProviderName(t))
+		// the endpoint's own profile, read from the loader directly (NOT through GetAnthropicSupport,
+		// so that a broken lookup cannot vouch for itself)
+		var res *domain.AnthropicSupportConfig
+		if p, ok := all[fac.NormalizeProviderName(t)]; ok && p.GetConfig() != nil {
+			res = p.GetConfig().API.AnthropicSupport
+		}
 		trows = append(trows, vlib.LeanTuple(vlib.LeanStr(t), vlib.LeanBool(fac.ValidateProfileType(t)),
 			vlib.LeanBool(raw != nil && raw.Enabled), vlib.LeanBool(res != nil && res.Enabled),
 			vlib.LeanStr(handlers.NormaliseProviderType(t))))
 	}
 	f.Def("endpointTypes", "List (String × Bool × Bool × Bool × String)", vlib.LeanList(trows),
-		"(endpoint type as written in a config, ValidateProfileType, GetAnthropicSupport(type) non-nil and enabled — the lookup tryPassthrough performs, GetAnthropicSupport(NormalizeProviderName(type)) non-nil and enabled — the endpoint's own profile, handlers.NormaliseProviderType(type))")
+		"(endpoint type as written in a config, ValidateProfileType, GetAnthropicSupport(type) non-nil and enabled — the lookup tryPassthrough performs, api.anthropic_support.enabled of the loader's profile NormalizeProviderName(type) — the endpoint's own profile, read without GetAnthropicSupport, handlers.NormaliseProviderType(type))")
 
 	// ---- constants of the split, by running the translator
 	tr := anthropic.NewTranslator(vlib.QuietLogger(), config.AnthropicTranslatorConfig{Enabled: true, MaxMessageSize: 10 << 20, PassthroughEnabled: true})
